@@ -22,6 +22,7 @@
 #include <new>
 #include <climits>
 #include <cctype>
+#include <csetjmp>
 
 static inline void* raw_malloc(size_t n) { return malloc(n); }
 static inline void raw_free(void* p) { free(p); }
@@ -34,6 +35,7 @@ static inline void* raw_realloc(void* p, size_t n) { return realloc(p, n); }
 #include "CppUTest/MemoryLeakWarningPlugin.h"
 #include "CppUTest/SimpleStringInternalCache.h"
 #include "CppUTest/PlatformSpecificFunctions.h"
+#include "CppUTest/TestTestingFixture.h"
 #include "CppUTestExt/MemoryReportAllocator.h"
 #ifdef new
 #undef new
@@ -214,8 +216,25 @@ static int classify(const char* line) {
     return C_OTHER;
 }
 
+// How the failure callback leaves the detector. A recording reporter that simply returns is the exception in real use: the
+// reporter cpputest installs (MemoryLeakWarningReporter -> UtestShell::failWith with the terminator "without exceptions")
+// never returns, it long-jumps back into the test runner; a user-supplied MemoryLeakFailure may just as well throw.
+// The statement quantifies over histories, so "an earlier report left the detector non-locally" is a history shape:
+//   returns        the callback returns (everything before this dimension existed)
+//   longjmp        the callback records and long-jumps to a setjmp taken around the one release operation
+//   throws         the callback records and throws a C++ exception caught around the one release operation (private mode only:
+//                  the global operator delete overloads are noexcept; builds with exceptions only)
+//   real-reporter  the callback records and forwards to cpputest's own reporter while the release runs inside a test of a
+//                  TestTestingFixture (private mode only)
+enum { X_RETURN, X_LONGJMP, X_THROW, X_REAL, NEXIT };
+static const char* EXIT_NAME[NEXIT] = { "returns", "longjmp", "throws", "real-reporter" };
+static jmp_buf g_jb; static bool g_jb_armed = false, g_in_fixture_test = false;
+static MemoryLeakFailure* g_real_reporter = nullptr;
+struct LeaveByThrow { int dummy; };
+
 struct Recorder : public MemoryLeakFailure {
     int calls = 0, op_calls = 0; size_t consumed = 0; int first_cat = C_NONE; char first_line[80];
+    int exitmode = X_RETURN, left = 0, real_returned = 0;
     Recorder() { first_line[0] = 0; }
     void begin_op() { op_calls = 0; first_cat = C_NONE; first_line[0] = 0; }
     void fail(char* s) override {
@@ -229,8 +248,38 @@ struct Recorder : public MemoryLeakFailure {
             first_cat = classify(first_line);
         }
         consumed = len;
+        switch (exitmode) {
+        case X_LONGJMP: if (g_jb_armed) { left++; g_jb_armed = false; longjmp(g_jb, 1); } break;
+#ifndef VF_NOEXC
+        case X_THROW: if (g_jb_armed) { left++; g_jb_armed = false; throw LeaveByThrow(); } break;
+#endif
+        case X_REAL: if (g_in_fixture_test && g_real_reporter) { left++; g_real_reporter->fail(s); left--; real_returned++; } break;
+        default: break;
+        }
     }
 };
+static void (*g_guarded_fn)() = nullptr;
+__attribute__((noinline)) static void run_leaving_by_longjmp() {
+    if (setjmp(g_jb) == 0) { g_jb_armed = true; g_guarded_fn(); }
+    g_jb_armed = false;
+}
+static void run_catching() {
+#ifndef VF_NOEXC
+    g_jb_armed = true;
+    try { g_guarded_fn(); } catch (const LeaveByThrow&) {}
+    g_jb_armed = false;
+#else
+    g_guarded_fn();
+#endif
+}
+static TestTestingFixture* g_fixture = nullptr;
+static void run_in_fixture_test() {
+    if (!g_fixture) { g_guarded_fn(); return; }
+    g_in_fixture_test = true;
+    g_fixture->setTestFunction(g_guarded_fn);
+    g_fixture->runAllTests();
+    g_in_fixture_test = false;
+}
 
 // ---------------------------------------------------------------- scenario
 struct Op {
@@ -239,6 +288,7 @@ struct Op {
 };
 struct Scen {
     bool global = false, ts = false, wraps = false, chk0 = true;
+    int exitmode = X_RETURN;      // how the failure callback leaves (effective only without the thread-safe overloads; global mode: returns / longjmp)
     int nslots = 0;
     std::vector<Op> ops;
 };
@@ -255,7 +305,8 @@ struct Blk { char* p = nullptr; size_t size = 0; int fam = 0, kind = 0; bool sep
 
 struct Res {
     bool done = false, skipped = false, cleanup = false, via_realloc = false, chk = false, famdiff = false, bucket_shared = false;
-    bool poison_applicable = false;
+    bool poison_applicable = false, left = false;
+    int prior_left = 0;
     uint8_t exp = 0, got = 0, addrcls = 0, gcls = 0, famA = 0, famR = 0, kindA = 0, kindR = 0, via = 0, sep = 0;
     int calls = 0, live = 0, hits = 0, unknown_free = 0, opidx = -1;
     size_t size = 0; long off = 0;
@@ -269,7 +320,7 @@ static const char* AC_NAME[] = { "live", "interior", "guard-address", "past-end"
 static const char* GC_NAME[] = { "intact", "b0", "b1", "b0+b1", "b2", "b0+b2", "b1+b2", "b0+b1+b2", "n/a" };
 
 struct Stat {   // per case, POD
-    uint64_t allocs = 0, writes_user = 0, writes_guard = 0, writes_guard_same = 0, writes_pad = 0, fills = 0, skipped_ops = 0, alloc_failed = 0, guard_is_BAS = 0, guard_not_BAS = 0, setcur = 0, period_ops = 0, chk_toggles = 0, reallocs_moved = 0, skipped_crosslayout = 0;
+    uint64_t allocs = 0, writes_user = 0, writes_guard = 0, writes_guard_same = 0, writes_pad = 0, fills = 0, skipped_ops = 0, alloc_failed = 0, guard_is_BAS = 0, guard_not_BAS = 0, setcur = 0, period_ops = 0, chk_toggles = 0, reallocs_moved = 0, skipped_crosslayout = 0, forgotten = 0, cache_padding_defined = 0;
 };
 
 static char g_static_target[64];
@@ -352,6 +403,13 @@ struct Exec {
         b.knownS = ti >= 0 && (b.kind == K_REC || b.kind == K_TWIN || b.kind == K_FWRAP || b.kind == K_REPORT);
         b.S = ti >= 0 ? g_tab[ti].size : 0;
         for (size_t i = 0; i < b.size; i++) b.p[i] = (char) pat(b.seed, i);
+        // String-cache blocks: SimpleStringInternalCache's once-only "deallocating unknown memory" warning formats the released buffer with %s, i.e. it walks
+        // over user bytes, guard and the alignment padding nobody ever wrote, up to the first zero byte of the bookkeeping record. The harness gives the padding
+        // a defined value so that the monitors' own workload puts no uninitialised bytes into cpputest's output path (memcheck variant); padding is not guard.
+        if (b.kind == K_CACHE && ti >= 0 && !b.sep && b.S >= b.size + 3 + sizeof(MemoryLeakDetectorNode)) {
+            size_t n = b.S - sizeof(MemoryLeakDetectorNode) - (b.size + 3);
+            memset(b.p + b.size + 3, '_', n); st.cache_padding_defined++;
+        }
         for (int i = 0; i < 3; i++) b.g0[i] = (unsigned char) b.p[b.size + (size_t) i];
         if (b.g0[0] == 'B' && b.g0[1] == 'A' && b.g0[2] == 'S') st.guard_is_BAS++; else st.guard_not_BAS++;
     }
@@ -478,16 +536,20 @@ struct Exec {
         }
         int uf0 = g_unknown_free;
         rec.begin_op();
-        char* np = nullptr;
         if (o.realloc_ && o.flag) g_fail_realloc_once = true;
-        if (s.global) {
-            if (o.realloc_) { g_expect_alloc = true; np = (char*) cpputest_realloc_location(a, o.size, FILE_F, 7); g_expect_alloc = false; }
-            else global_release(famR, o.rep, a, mb ? mb->size : 0);
-        } else {
-            TestMemoryAllocator* A = alloc_of(ws, famR, kindR);
-            if (o.realloc_) { g_expect_alloc = true; np = det.reallocMemory(A, a, o.size, FILE_F, 7, sepflag); g_expect_alloc = false; }
-            else det.deallocMemory(A, a, FILE_F, 7, sepflag);
+        // the one release operation, run so that the callback can leave it the way the scenario says
+        call_.o = &o; call_.a = a; call_.famR = famR; call_.kindR = kindR; call_.sepflag = sepflag; call_.hint = mb ? mb->size : 0; call_.np = nullptr;
+        g_exec = this; g_guarded_fn = &Exec::invoke_current;
+        int left0 = rec.left;
+        switch (rec.exitmode) {
+        case X_LONGJMP: run_leaving_by_longjmp(); break;
+        case X_THROW: run_catching(); break;
+        case X_REAL: run_in_fixture_test(); break;
+        default: invoke_current(); break;
         }
+        g_expect_alloc = false;
+        char* np = call_.np;
+        r.prior_left = left0; r.left = rec.left != left0;
         g_fail_realloc_once = false;
         g_w.active = false;
         r.calls = rec.op_calls; r.got = rec.op_calls ? (uint8_t) rec.first_cat : (uint8_t) C_NONE;
@@ -502,10 +564,29 @@ struct Exec {
                     mb->p = np; mb->size = o.size; mb->fam = famR; mb->kind = kindR; if (s.global) mb->sep = true;
                     mb->seed += 17;
                     after_alloc(*mb);
+                } else if (r.left) {
+                    // the report of a realloc left the detector before the block was moved or re-registered: what has become of the block is not
+                    // stated anywhere, so the scenario does not touch it again (later operations that name it are skipped)
+                    mb->out = false; mb->ever = false; st.forgotten++;
                 }   // a failed realloc leaves the old block outstanding
             } else mb->out = false;
         }
         if (rec.consumed > 2400) { det.startChecking(); rec.consumed = 0; if (period != 2) apply_period(); }
+    }
+
+    struct Call { const Op* o; char* a; int famR, kindR; bool sepflag; size_t hint; char* np; } call_;
+    static Exec* g_exec;
+    static void invoke_current() { g_exec->invoke(); }
+    void invoke() {
+        const Op& o = *call_.o; char* a = call_.a;
+        if (s.global) {
+            if (o.realloc_) { g_expect_alloc = true; call_.np = (char*) cpputest_realloc_location(a, o.size, FILE_F, 7); g_expect_alloc = false; }
+            else global_release(call_.famR, o.rep, a, call_.hint);
+        } else {
+            TestMemoryAllocator* A = alloc_of(ws, call_.famR, call_.kindR);
+            if (o.realloc_) { g_expect_alloc = true; call_.np = det.reallocMemory(A, a, o.size, FILE_F, 7, call_.sepflag); g_expect_alloc = false; }
+            else det.deallocMemory(A, a, FILE_F, 7, call_.sepflag);
+        }
     }
 
     void run() {
@@ -521,7 +602,9 @@ struct Exec {
             case OP_WRITE: do_write(o); break;
             case OP_RELEASE: do_release(o, false, i); break;
             case OP_CHECKING: chk = o.flag != 0; if (chk) det.enableAllocationTypeChecking(); else det.disableAllocationTypeChecking(); st.chk_toggles++; break;
-            case OP_PERIOD: period = o.flag % 3; apply_period(); if (o.flag == 3) { det.stopChecking(); period = 1; } st.period_ops++; break;
+            case OP_PERIOD:
+                if (o.flag == 4) { det.stopChecking(); det.startChecking(); rec.consumed = 0; period = 2; st.period_ops++; break; }     // a new checking period
+                period = o.flag % 3; apply_period(); if (o.flag == 3) { det.stopChecking(); period = 1; } st.period_ops++; break;
             case OP_SETCUR: if (s.global && o.fam <= F_MAL && o.rep != K_MLA && o.rep != K_CACHE && (o.rep < K_FWRAP || ws)) { set_current(o.fam, o.rep); st.setcur++; } else st.skipped_ops++; break;
             }
             i++;
@@ -536,6 +619,8 @@ struct Exec {
         if (rawheap) raw_free(rawheap);
     }
 };
+
+Exec* Exec::g_exec = nullptr;
 
 // ---------------------------------------------------------------- description / judging (outside the window)
 static std::string hx(int v) { char b[8]; snprintf(b, sizeof b, "%02x", v & 0xff); return b; }
@@ -555,10 +640,10 @@ static std::string describe(const Scen& s) {
         }
         ops.push_back(vf::jstr(t));
     }
-    return vf::J().k("mode", s.global ? "global" : "private").k("threadsafe_overloads", s.ts).k("type_checking_initially", s.chk0).k("noise_blocks", noise).raw("ops", vf::jarr(ops)).str();
+    return vf::J().k("mode", s.global ? "global" : "private").k("threadsafe_overloads", s.ts).k("type_checking_initially", s.chk0).k("failure_callback_leaves_by", EXIT_NAME[s.exitmode % NEXIT]).k("noise_blocks", noise).raw("ops", vf::jarr(ops)).str();
 }
 static uint64_t fingerprint(const Scen& s) {
-    uint64_t h = vf::fnv(&s.global, 1); h = vf::fnv(&s.ts, 1, h); h = vf::fnv(&s.chk0, 1, h);
+    uint64_t h = vf::fnv(&s.global, 1); h = vf::fnv(&s.ts, 1, h); h = vf::fnv(&s.chk0, 1, h); if (s.exitmode != X_RETURN) { uint8_t xm = (uint8_t) s.exitmode; h = vf::fnv(&xm, 1, h); }
     for (const Op& o : s.ops) { uint32_t w[5] = { (uint32_t) o.k | (uint32_t) o.fam << 8 | (uint32_t) o.rep << 16 | (uint32_t) o.sep << 24, (uint32_t) o.addr | (uint32_t) o.wkind << 8 | (uint32_t) o.realloc_ << 16 | (uint32_t) o.flag << 24, (uint32_t) o.off, (uint32_t) (uint16_t) o.val | (uint32_t) (uint16_t) o.blk << 16, o.size }; h = vf::fnv(w, sizeof w, h); }
     return h;
 }
@@ -594,8 +679,25 @@ static void execute(vf::Ctx& c, const Scen& s) {
     Res* res = g_res;
     Stat st;
     int stray, overflow, rcount;
+    // effective way the callback leaves: a report that leaves a thread-safe wrapper keeps the detector mutex locked (known finding D10 of C10), so the
+    // non-returning reporters are only used with the default overloads; through the global entry points only longjmp can cross the noexcept operator delete
+    int xm = s.exitmode % NEXIT;
+    if (s.ts) xm = X_RETURN;
+    if (s.global && xm != X_LONGJMP) xm = X_RETURN;
+#ifdef VF_NOEXC
+    if (xm == X_THROW) xm = X_LONGJMP;
+#endif
+    // SimpleStringInternalCache prints a once-only warning that formats the *caller's* buffer with %s through the current test; inside a fixture test
+    // that text (pattern bytes, guard, never-written padding) would flow into the fixture's output buffer. What is printed about a foreign buffer is
+    // outside every clause, so scenarios that use the string cache as a detector allocator do not run their releases inside a fixture test.
+    if (xm == X_REAL) for (const Op& o : s.ops) if ((o.k == OP_ALLOC || o.k == OP_RELEASE) && o.rep == K_CACHE) { xm = X_LONGJMP; break; }
+    int total_left = 0, real_returned = 0; size_t fixture_failures = 0, fixture_runs = 0;
+    g_real_reporter = r0;
     {
         Recorder rec, rec2;
+        rec.exitmode = xm;
+        TestTestingFixture* fixture = xm == X_REAL ? new TestTestingFixture() : nullptr;     // outside the window: plain operator new
+        g_fixture = fixture;
         MemoryLeakDetector det(&rec);
         bool need2 = s.wraps;
         for (const Op& o : s.ops) if (o.k == OP_RELEASE && o.addr == A_OTHERDET) need2 = true;
@@ -607,6 +709,10 @@ static void execute(vf::Ctx& c, const Scen& s) {
         ex.run();
         ex.close(g0, r0);
         st = ex.st; rcount = ex.rcount; stray = g_stray; overflow = g_tab_overflow;
+        total_left = rec.left; real_returned = rec.real_returned;
+        if (fixture) { fixture_failures = fixture->getFailureCount(); fixture_runs = fixture->getRunCount(); }
+        g_fixture = nullptr; Exec::g_exec = nullptr; g_guarded_fn = nullptr;
+        delete fixture;
         if (ws) ws->~WrapSet();
         if (det2) det2->~MemoryLeakDetector();
     }
@@ -624,6 +730,9 @@ static void execute(vf::Ctx& c, const Scen& s) {
         auto ctx = [&] {
             // the key names the input class: address class, which guard bytes differ, and - only where the family decision is involved - the family relation,
             // the checking switch and whether wrapper / twin allocator objects took part. Mode, entry point, layout and sizes go to the detail text.
+            // a release after an earlier report left the callback non-locally is keyed by that history shape alone (one defect there would otherwise
+            // be spread over every address class / guard state of the releases that follow)
+            if (r.prior_left) return std::string(":after-report-left-by=") + EXIT_NAME[xm] + (r.via_realloc ? ":via=realloc" : "");
             bool fam_involved = r.exp == C_MISMATCH || r.got == C_MISMATCH;
             auto isw = [](int k) { return k >= K_FWRAP; };
             std::string objs = (r.addrcls == AC_LIVE && isw(r.kindA)) ? std::string("wrapper-") + KIND_NAME[r.kindA] : isw(r.kindR) ? std::string("wrapper-") + KIND_NAME[r.kindR] : wrapped ? "other-object-same-name" : "";
@@ -633,9 +742,9 @@ static void execute(vf::Ctx& c, const Scen& s) {
         };
         auto detail = [&] {
             char b[800];
-            snprintf(b, sizeof b, "%s mode, type checking %s, %s release #%d (op %d) via %s [%s allocator %s]: expected %s, observed %d callback(s) first='%s'; block size=%zu allocated by %s/%s layout=%s offset=%ld guard now=%02x%02x%02x was=%02x%02x%02x live blocks=%d shared bucket=%d",
+            snprintf(b, sizeof b, "%s mode, type checking %s, %s release #%d (op %d) via %s [%s allocator %s]: expected %s, observed %d callback(s) first='%s'; block size=%zu allocated by %s/%s layout=%s offset=%ld guard now=%02x%02x%02x was=%02x%02x%02x live blocks=%d shared bucket=%d; failure callback leaves by: %s, earlier reports that left: %d",
                      mode, r.chk ? "on" : "off", r.cleanup ? "cleanup" : "scripted", i, r.opidx, via().c_str(), FAM_NAME[r.famR], KIND_NAME[r.kindR], CAT_NAME[r.exp], r.calls, r.line, r.size,
-                     r.addrcls == AC_LIVE ? FAM_NAME[r.famA] : "-", r.addrcls == AC_LIVE ? KIND_NAME[r.kindA] : "-", r.sep ? "separate" : "inline", r.off, r.gnow[0], r.gnow[1], r.gnow[2], r.gorig[0], r.gorig[1], r.gorig[2], r.live, (int) r.bucket_shared);
+                     r.addrcls == AC_LIVE ? FAM_NAME[r.famA] : "-", r.addrcls == AC_LIVE ? KIND_NAME[r.kindA] : "-", r.sep ? "separate" : "inline", r.off, r.gnow[0], r.gnow[1], r.gnow[2], r.gorig[0], r.gorig[1], r.gorig[2], r.live, (int) r.bucket_shared, EXIT_NAME[xm], r.prior_left);
             return std::string(b);
         };
         if (r.got != r.exp) report(c, std::string("misreport:exp=") + CAT_NAME[r.exp] + ":got=" + CAT_NAME[r.got] + ctx(), detail());
@@ -653,6 +762,13 @@ static void execute(vf::Ctx& c, const Scen& s) {
             }
         }
         // evidence
+        if (r.prior_left) {
+            CNT("releases_after_an_earlier_report_left_nonlocally", 1);
+            static Cnt c_due[5][NEXIT];
+            CNTA(c_due[r.exp][xm], std::string("after_report_left_by_") + EXIT_NAME[xm] + "_expected_" + CAT_NAME[r.exp]);
+            if (r.exp != C_NONE) CNT("reports_due_after_an_earlier_report_left_nonlocally", 1);
+        }
+        if (r.left) { static Cnt c_left[NEXIT]; CNTA(c_left[xm], std::string("reports_that_left_by_") + EXIT_NAME[xm]); }
         CNT("releases_total", 1);
         CNTA(c_exp[r.exp], std::string("expected_") + CAT_NAME[r.exp]);
         CNTA(c_addr[r.addrcls], std::string("addr_") + AC_NAME[r.addrcls]);
@@ -675,6 +791,11 @@ static void execute(vf::Ctx& c, const Scen& s) {
     if (st.alloc_failed) CNT("allocations_failed", st.alloc_failed);
     if (st.skipped_crosslayout) CNT("skipped_cross_layout_release_into_default_malloc_allocator", st.skipped_crosslayout);
     CNT("current_allocator_switches", st.setcur); CNT("type_checking_toggles", st.chk_toggles); CNT("period_noise_ops", st.period_ops); CNT("reallocs_that_moved", st.reallocs_moved); CNT("platform_realloc_failures_injected", g_realloc_failures_injected); g_realloc_failures_injected = 0;
+    { static Cnt c_xm[NEXIT]; CNTA(c_xm[xm], std::string("scenarios_failure_callback_") + EXIT_NAME[xm]); }
+    if (total_left >= 2) CNT("scenarios_with_two_or_more_reports_that_left_nonlocally", 1);
+    if (xm == X_REAL) { CNT("real_reporter_fixture_test_runs", fixture_runs); CNT("real_reporter_fixture_tests_failed", fixture_failures); if (real_returned) CNT("real_reporter_returned_to_the_detector", real_returned); }
+    if (st.cache_padding_defined) CNT("string_cache_blocks_whose_padding_the_harness_defined", st.cache_padding_defined);
+    if (st.forgotten) CNT("blocks_not_touched_again_after_a_realloc_report_left", st.forgotten);
     if (s.ts) CNT("scenarios_threadsafe_overloads", 1);
     if (s.global) CNT("scenarios_global_mode", 1); else CNT("scenarios_private_mode", 1);
     cnt_flush(c);
@@ -882,6 +1003,64 @@ static void sec_context(vf::Ctx& c) {
     s.ops.push_back(opRelease(b, famR, rentry(m, famR, (int) r.below(5))));
     execute(c, s);
 }
+// 9b. how the failure callback leaves x three consecutive (mis)uses on one detector x what separates them.
+//     Every report must be delivered no matter how an earlier report left the detector.
+enum { MK_OK, MK_NULL, MK_FOREIGN, MK_STALE, MK_INTERIOR, MK_MISMATCH, MK_CORRUPT, MK_REALLOC_FOREIGN, NMK };
+struct XM { uint8_t mode, exit; };
+static std::vector<XM> XMODES;
+static void init_xmodes() {
+    for (int m = 0; m < NMODE; m++) for (int x = X_LONGJMP; x < NEXIT; x++) {
+        if (mode_of(m).global && x != X_LONGJMP) continue;
+#ifdef VF_NOEXC
+        if (x == X_THROW) continue;
+#endif
+        XM e = { (uint8_t) m, (uint8_t) x }; XMODES.push_back(e);
+    }
+}
+static void push_misuse(Scen& s, const Mode& m, int b, int mk, size_t sz, int v) {
+    int famO = (m.fam + 1 + (v & 1)) % 3;
+    s.ops.push_back(opAlloc(b, m.fam, aentry(m, m.fam, v), sz, m.sep));
+    switch (mk) {
+    case MK_OK: s.ops.push_back(opRelease(b, m.fam, rentry(m, m.fam, v))); break;
+    case MK_NULL: s.ops.push_back(opRelease(b, m.fam, rentry(m, m.fam, v), A_NULL, 0)); break;
+    case MK_FOREIGN: s.ops.push_back(opRelease(b, (m.fam + v) % 3, rentry(m, (m.fam + v) % 3, v), (v & 2) ? A_STACK : A_STATIC, 0)); break;
+    case MK_STALE: s.ops.push_back(opRelease(b, m.fam, rentry(m, m.fam, v))); s.ops.push_back(opRelease(b, m.fam, rentry(m, m.fam, v + 1))); break;
+    case MK_INTERIOR: s.ops.push_back(opRelease(b, m.fam, rentry(m, m.fam, v), A_BLOCK, 1 + (long) (sz ? (size_t) v % sz : 0))); break;
+    case MK_MISMATCH: s.ops.push_back(opRelease(b, famO, rentry(m, famO, v))); break;
+    case MK_CORRUPT: s.ops.push_back(opWrite(b, W_GUARD, v % 3, (v & 4) ? V_FLIP1 : V_INV)); s.ops.push_back(opRelease(b, m.fam, rentry(m, m.fam, v))); break;
+    case MK_REALLOC_FOREIGN: s.ops.push_back(opRealloc(b, m.global ? F_MAL : m.fam, m.global ? 0 : K_REC, 10, A_STATIC, 0)); break;
+    }
+}
+static void sec_reporter_exit(vf::Ctx& c) {
+    Dec d{ c.idx }; int k[3]; k[0] = (int) d.take(NMK); k[1] = (int) d.take(NMK); k[2] = (int) d.take(NMK); int sep = (int) d.take(3); const XM& xm = XMODES[d.take(XMODES.size())];
+    Mode m = mode_of(xm.mode);
+    Scen s; s.global = m.global; s.exitmode = xm.exit; s.nslots = 3; s.ops.reserve(16);
+    s.chk0 = (k[0] + k[1] + k[2] + sep) % 5 != 0;
+    for (int j = 0; j < 3; j++) {
+        int v = (int) ((c.idx / 7 + (uint64_t) j * 5) % 64);
+        size_t sz = SZ[(size_t) ((c.idx * 7 + (uint64_t) j * 13) % SZ.size())];
+        if (j && sep) s.ops.push_back(opPeriod(sep == 1 ? 2 : 4));      // startChecking / stopChecking + startChecking between the misuses
+        push_misuse(s, m, j, k[j], sz, v);
+    }
+    execute(c, s);
+}
+// 9c. the same with random lengths, other live blocks around, type-checking toggles and every period operation in between
+static void sec_reporter_exit_random(vf::Ctx& c) {
+    vf::Rng& r = c.rng;
+    const XM& xm = XMODES[r.below(XMODES.size())];
+    Mode m = mode_of(xm.mode);
+    Scen s; s.global = m.global; s.exitmode = xm.exit; s.chk0 = r.chance(75);
+    if (r.chance(40)) add_noise(s, r, r.range(1, 80), m.global);
+    int n = r.range(2, 12);
+    for (int j = 0; j < n; j++) {
+        if (r.chance(25)) s.ops.push_back(opPeriod((int) r.below(5)));
+        if (r.chance(15)) s.ops.push_back(opChk(r.chance(60)));
+        int mk = r.chance(20) ? MK_OK : (int) r.below(NMK);
+        size_t sz = r.chance(85) ? (size_t) r.below(65) : r.pick(SZ);
+        push_misuse(s, m, s.nslots++, mk, sz, (int) r.below(64));
+    }
+    execute(c, s);
+}
 // 10. random histories
 static void sec_histories(vf::Ctx& c) {
     vf::Rng& r = c.rng;
@@ -939,6 +1118,8 @@ static void sec_histories(vf::Ctx& c) {
         else if (s.global) { int f = (int) r.below(3); int k = SW_KINDS[r.below(s.wraps ? 7 : 3)]; s.ops.push_back(opSetCur(f, k)); curk[f] = k; }
     }
     s.nslots = (int) g.size();
+    // drawn last (the operation lists of this section are the same as before this dimension existed)
+    if (!s.ts && r.chance(50)) s.exitmode = s.global ? X_LONGJMP : (int) r.range(X_LONGJMP, X_REAL);
     execute(c, s);
 }
 
@@ -961,7 +1142,7 @@ int main(int argc, char** argv) {
     static RecAlloc r0(0, STD_NAME[0]), r1(1, STD_NAME[1]), r2(2, STD_NAME[2]), r3(3, STD_NAME[3]);
     static RecAlloc t0(0, TWIN_NAME[0]), t1(1, TWIN_NAME[1]), t2(2, TWIN_NAME[2]), t3(3, TWIN_NAME[3]);
     g_rec[0] = &r0; g_rec[1] = &r1; g_rec[2] = &r2; g_rec[3] = &r3; g_twin[0] = &t0; g_twin[1] = &t1; g_twin[2] = &t2; g_twin[3] = &t3;
-    init_fpairs(); init_addrs(); init_inb();
+    init_fpairs(); init_addrs(); init_inb(); init_xmodes();
     uint64_t nsz = SZ.size();
     std::vector<vf::Section> S = {
         { "guard_values", 16 * 3 * NMODE * nsz, 16 * 3 * NMODE * nsz, sec_guard_values, true },
@@ -973,10 +1154,12 @@ int main(int argc, char** argv) {
         { "inbounds", 3 * NMODE * (uint64_t) INB.size(), 3 * NMODE * (uint64_t) INB.size(), sec_inbounds, true },
         { "inbounds_fill", 5 * NMODE * nsz, 5 * NMODE * nsz, sec_inbounds_fill, true },
         { "padding", 3 * 8 * NMODE * nsz, 3 * 8 * NMODE * nsz, sec_padding, true },
+        { "reporter_exit", NMK * NMK * NMK * 3 * (uint64_t) XMODES.size(), NMK * NMK * NMK * 3 * (uint64_t) XMODES.size(), sec_reporter_exit, true },
         { "guard_values_x_family", 6000, (uint64_t) 16 * 3 * NMODE * nsz * 2 * 3, sec_guard_values_x, false },
         { "interior_large", 4000, (uint64_t) ADDRS_LARGE.size() * NMODE, sec_interior_large, false },
         { "inbounds_large", 4000, (uint64_t) INB_LARGE.size() * NMODE, sec_inbounds_large, false },
         { "context", 12000, 1000000, sec_context, false },
+        { "reporter_exit_random", 4000, 300000, sec_reporter_exit_random, false },
         { "histories", 4000, 500000, sec_histories, false },
     };
     return vf::harness_main(argc, argv, S, init);
